@@ -536,6 +536,47 @@ func c09CheckModule(w *World, r *Report) {
 				}
 				return 0, true // absent key: the zero value
 			}
+			// a result of a helper of the module (kind ↦ section): the exit taken under the model
+			{
+				var call *ssa.Call
+				idx := 0
+				switch x := v.(type) {
+				case *ssa.Call:
+					call = x
+				case *ssa.Extract:
+					call, _ = x.Tuple.(*ssa.Call)
+					idx = x.Index
+				}
+				if call != nil && call.Call.StaticCallee() != nil && call.Call.StaticCallee().Blocks != nil && strings.HasPrefix(pkgPathOf(call.Call.StaticCallee()), modPath) && len(ssaLoops(call.Call.StaticCallee())) == 0 && d < 4 {
+					h := call.Call.StaticCallee()
+					hctx := &symCtx{call: call}
+					var got *int64
+					for _, row := range sym.retTableCtx(h, idx, hctx, 0) {
+						hit, decided := pcEvalFree(row.cond, model)
+						if !decided {
+							return 0, false
+						}
+						if !hit {
+							continue
+						}
+						rv := row.val
+						if row.ctx != nil {
+							rv = sym.Resolve(rv, row.ctx)
+						} else {
+							rv = sym.Resolve(rv, hctx)
+						}
+						c, ok := constUnder(rv, d+1)
+						if !ok || (got != nil && *got != c) {
+							return 0, false
+						}
+						got = &c
+					}
+					if got != nil {
+						return *got, true
+					}
+					return 0, false
+				}
+			}
 			if phi, ok := v.(*ssa.Phi); ok && phi != prev {
 				if busy[phi] {
 					return 0, false
@@ -559,12 +600,12 @@ func c09CheckModule(w *World, r *Report) {
 					if _, isC := side.(*ssa.Const); isC {
 						continue
 					}
-					if c, ok := constUnder(side, 0); ok {
+					if c, ok := constUnder(sym.Resolve(side, a.ctx), 0); ok {
 						return a.set.contains(c), true
 					}
 				}
 			}
-			if keys, _, idx, ok := pcTableEntries(w, a.v, false); ok && isKind(idx) {
+			if keys, _, idx, ok := pcTableEntries(w, a.v, false); ok && isKind(sym.Resolve(idx, a.ctx)) {
 				for _, k := range keys {
 					if kv, isInt := constant.Int64Val(constant.ToInt(k)); isInt && kv == kind {
 						return true, true
@@ -573,8 +614,8 @@ func c09CheckModule(w *World, r *Report) {
 				return false, true
 			}
 			if (a.op == token.EQL || a.op == token.LSS) && a.x != nil && a.y != nil && isIntegerType(a.x.Type()) {
-				x, okx := constUnder(a.x, 0)
-				y, oky := constUnder(a.y, 0)
+				x, okx := constUnder(sym.Resolve(a.x, a.ctx), 0)
+				y, oky := constUnder(sym.Resolve(a.y, a.ctx), 0)
 				if okx && oky {
 					if a.op == token.EQL {
 						return x == y, true
@@ -1451,6 +1492,7 @@ func c09CardinalityDecision(w *World) (missing, tooMany string) {
 			if n := loadedFieldName(side); n == "Start" || n == "End" {
 				return n
 			}
+			side = sym.Resolve(side, a.ctx) // the count handed to a helper
 			if ex, ok := side.(*ssa.Lookup); ok && isIntegerType(ex.Type()) {
 				return "count"
 			}
